@@ -1,6 +1,69 @@
 """C29 — statistics reported as exact are exact: the Precision algebra and Statistics::with_fetch."""
 LEVEL = "proof"
-VERUS = []
+F = "datafusion/common/src/stats.rs"
+NOBOUNDS = dict(rule="R3", find="<T: Debug + Clone + PartialEq + Eq + PartialOrd>", replace="<T>", count=1)
+VERUS = [dict(
+    name="with_fetch_rows",
+    uses="use vstd::prelude::*;\n",
+    prelude="prelude.rs", proofs="proofs.rs", witness="witness.rs", rlimit=60, min_verified=5,
+    twins=[],
+    items=[
+        dict(file=F, path=["enum Precision"], prefix="#[derive(Clone, Copy)]\n", edits=[NOBOUNDS]),
+        dict(file=F, path=["impl<T: Debug + Clone + PartialEq + Eq + PartialOrd> Precision<T>", "fn is_exact"], wrap="impl<T> Precision<T>", ret="r",
+             contract="    ensures r == (match *self { Precision::Exact(_) => Some(true), Precision::Inexact(_) => Some(false), Precision::Absent => None }),"),
+        dict(file=F, path=["fn check_num_rows"], ret="r",
+             contract="    ensures r == (match value { Some(v) => if is_exact { Precision::Exact(v) } else { Precision::Inexact(v) }, None => Precision::Absent }),"),
+        dict(file=F, path=["struct Statistics"]),
+        dict(file=F, path=["impl Statistics", "fn with_fetch"], wrap="impl Statistics", ret="res",
+             # R17: `mut self` (unsupported) -> by-value parameter `self_in` moved into a local `this`; every `self` token renamed
+             edits=[dict(rule="R13", find="fetch.and_then(|v| v.checked_mul(n_partitions))", replace="fetch_times_partitions(fetch, n_partitions)"),
+                    dict(rule="R17", find="        mut self,\n", replace="        self_in: Self,\n"),
+                    dict(rule="R17", regex=r"\bself\b", replace="this", count="any"),
+                    dict(rule="R17", find=") -> Result<Self> {\n", replace=") -> Result<Self> {\n        let mut this = self_in;\n")],
+             truncate_at=dict(anchor="        let ratio: Option<f64> = match (num_rows_before, this.num_rows) {",
+                              dropped_must_not_contain=["this.num_rows =", "num_rows:"],
+                              tail="""        proof {
+            let nr = self_in.num_rows;
+            let np = n_partitions as int;
+            if !identity_case(nr, fetch, skip) {
+                match nr {
+                    Precision::Exact(n) => {
+                        let e = rows_emitted(n as int, fetch, skip as int);
+                        if n <= skip { assert(e == 0); assert(e * np == 0) by(nonlinear_arith) requires e == 0; }
+                        else if (n - skip) as int <= fetch_val as int { assert(e == n - skip); }
+                        else { assert(e == fetch_val as int); }
+                        assert(this.num_rows == spec_rows(nr, fetch, skip, np));
+                    }
+                    Precision::Inexact(n) => {
+                        let e = rows_emitted(n as int, fetch, skip as int);
+                        if n <= skip { assert(e == 0); assert(e * np == 0) by(nonlinear_arith) requires e == 0; }
+                        else if (n - skip) as int <= fetch_val as int { assert(e == n - skip); }
+                        else { assert(e == fetch_val as int); }
+                        assert(this.num_rows == spec_rows(nr, fetch, skip, np));
+                    }
+                    Precision::Absent => { assert(this.num_rows == spec_rows(nr, fetch, skip, np)); }
+                }
+            }
+        }
+        Ok(this)
+    }"""),
+             contract="""    requires n_partitions >= 1,
+    ensures res is Ok,
+        // untouched / identity cases hand the input back
+        identity_case(self_in.num_rows, fetch, skip) ==> res->Ok_0 == self_in,
+        // every other case: the row count is exactly the specified one (see lemma_exact_is_exact for the property)
+        !identity_case(self_in.num_rows, fetch, skip) ==> res->Ok_0.num_rows == spec_rows(self_in.num_rows, fetch, skip, n_partitions as int),
+        // frame: the truncated prefix touches nothing but num_rows
+        res->Ok_0.total_byte_size == self_in.total_byte_size, res->Ok_0.column_statistics == self_in.column_statistics,"""),
+    ],
+    mutants=[
+        dict(name="skip_ignored_in_remaining", item="with_fetch", find="(nr - skip).checked_mul(n_partitions)", replace="nr.checked_mul(n_partitions)"),
+        dict(name="fetch_compare_off_by_one", item="with_fetch", find="} else if nr - skip <= fetch_val {", replace="} else if nr - skip < fetch_val {"),
+        dict(name="zero_rows_exact_for_inexact", item="with_fetch", find="check_num_rows(Some(0), this.num_rows.is_exact().unwrap())", replace="check_num_rows(Some(0), true)"),
+        dict(name="absent_becomes_exact", item="with_fetch", find="fetch_times_partitions(fetch, n_partitions), false)", replace="fetch_times_partitions(fetch, n_partitions), true)"),
+        dict(name="check_num_rows_always_exact", item="check_num_rows", find="Precision::Inexact(value)", replace="Precision::Exact(value)"),
+    ],
+)]
 M = "common/stats.rs"
 KANI = [dict(package="datafusion-common", module=M, timeout=3000, harnesses=[
     dict(name="c29_add", complete=True, what="Precision<usize>::add, full usize x usize x 3x3 variants: Exact only for Exact+Exact without overflow and then the true sum; Absent absorbs; otherwise Inexact(saturated)"),
@@ -8,8 +71,8 @@ KANI = [dict(package="datafusion-common", module=M, timeout=3000, harnesses=[
     dict(name="c29_multiply", complete=True, what="Precision<usize>::multiply, same contract, full 64x64->128 bit domain"),
     dict(name="c29_min_max_to_inexact", complete=True, what="Precision::<usize>::{min,max,to_inexact,is_exact,get_value}: Exact only from two Exact inputs and equal to the true min/max"),
     dict(name="c29_selectivity", complete=True, what="with_estimated_selectivity: only Exact(0) stays Exact (selectivity from {0,0.5,1}; float value irrelevant to exactness)"),
-    dict(name="c29_with_fetch_rows", complete=True, what="Statistics::with_fetch with no columns, full domain of (num_rows, fetch, skip, n_partitions): Exact(v) => input Exact and v == rows LIMIT/OFFSET emits (n_partitions==1) / unwrapped product (n_partitions>1)"),
-    dict(name="c29_with_fetch_one_column_bounded", complete=False, bound="1 column (column loop), byte sizes Absent", what="with_fetch: when rows are cut no column statistic stays Exact, NDV <= rows; identity case keeps columns"),
+    dict(name="c29_with_fetch_rows", complete=True, thorough_only=True, what="Statistics::with_fetch with no columns, full domain of (num_rows, fetch, skip, n_partitions): Exact(v) => input Exact and v == rows LIMIT/OFFSET emits (n_partitions==1) / unwrapped product (n_partitions>1)"),
+    dict(name="c29_with_fetch_one_column_bounded", complete=False, thorough_only=True, bound="1 column (column loop), byte sizes Absent", what="with_fetch: when rows are cut no column statistic stays Exact, NDV <= rows; identity case keeps columns"),
 ])]
 TRUSTED = ["Kani 0.68 / CBMC 6.11", "std::fmt::format stubbed (error text opaque)"]
 ASSUMPTIONS = ["n_partitions >= 1", "column byte_size / total_byte_size Absent in the with_fetch harnesses (f64 ratio scaling never yields Exact; sliced away)",
